@@ -154,7 +154,7 @@ def run(ctx):
         tcplib.run_pair(ctx, drv, [f7], ['C05'], 'c05f7-%d' % attempt, parallel=1, what='TCP loss recovery / congestion window', classify=tcplib.classify_all)
     ctx.extra['f7_reproduced_this_run'] = 'F7' in ctx.known_hits
     # ---- the same clauses against a scripted raw peer (ACK patterns / windows / options two real stacks never produce)
-    rawpeer.raw_peer(ctx, ['C05'], 60, 400)
+    rawpeer.raw_peer(ctx, ['C05'], 48, 400)
     # ---- binding self-test: pull a timeout retransmission 900 ms earlier; delete a fast retransmission
     tc = tcplib.tcfg(['C05'])
     tail = next((s for s, sc in zip(segs, scs) if '-n6-drop[6]' in sc['tag'] and s[-1].get('why') == 'done'), None)
